@@ -39,6 +39,8 @@ func runC16(c *Ctx) {
 	c16LocalSearchLimit(c)
 	c16ModifiedIncludesUntracked(c)
 	lockPathIsRepoRelative(c, "R2")
+	locksOfAllRefsKnownBeforeUpload(c, "R1")
+	rawErrorsWhereClassified(c, "R4")
 	prep := p.Fn("commands", "(*uploadContext).prepareUpload")
 	rep := p.Fn("commands", "(*uploadContext).ReportErrors")
 	if prep == nil || rep == nil {
